@@ -58,17 +58,41 @@ M.assume('every test_case_processing.Result handed to a reporter is well formed 
          '(C02 proves `well-formed` of the three constructors)')
 
 
+class PathI(Interface):
+    """pathlib.Path as far as the reporters use it (presentation of file names)"""
+    methods = {
+        'relative_to': Method(returns=Iface(lambda: PathI), may_raise=(ValueError,)),
+        '__str__': Method(returns=Str),
+        'resolve': Method(returns=Iface(lambda: PathI)),
+    }
+    attrs = {'parent': Iface(lambda: PathI), 'name': Str, 'parts': Any_}
+
+
+class DurationI(Interface):
+    """datetime.timedelta"""
+    methods = {
+        '__add__': Method(returns=Iface(lambda: DurationI)),
+        '__radd__': Method(returns=Iface(lambda: DurationI)),
+        'total_seconds': Method(returns=Any_),
+    }
+
+
+class DateTimeI(Interface):
+    methods = {'replace': Method(returns=Iface(lambda: DateTimeI)), 'isoformat': Method(returns=Str)}
+
+
 class CaseI(Interface):
     """TestCaseFileReference; `ident` is a ghost name for the identity of the listed case."""
     target_class = tcp.TestCaseFileReference
-    attrs = {'ident': Int, 'file_path': Any_, 'path_relativity_root_dir': Any_}
+    attrs = {'ident': Int, 'file_path': Iface(PathI), 'path_relativity_root_dir': Iface(PathI)}
 
 
 CASE = Iface(CaseI)
-INFO = Inst(reporting.TestCaseProcessingInfo, _tuple=[RESULT, Any_])
+INFO = Inst(reporting.TestCaseProcessingInfo, _tuple=[RESULT, Iface(DurationI)])
 ENTRY = FixedList(CASE, INFO, as_tuple=True)
 
-SUB_REPORTER = Inst(reporting.SubSuiteReporter, _suite=Any_, _listener=Any_, _result=ListOf(ENTRY), _start_time=Any_)
+SUB_REPORTER = Inst(reporting.SubSuiteReporter, _suite=Any_, _listener=Any_, _result=ListOf(ENTRY),
+                    _start_time=Iface(DateTimeI))
 
 SUITE_EXIT_VALUE = OneOf(exit_values.ALL_PASS, exit_values.FAILED_TESTS)
 
@@ -126,6 +150,100 @@ M.loop(P_SPR + ':SimpleProgressRootSuiteReporter._valid_suite_exit_value', 1,
        modifies=dict(num_tests=Int, exit_value=SUITE_EXIT_VALUE, errors=Iface(_ErrorsI),
                      case_setup='local', processing_info='local', result='local', case_exit_value='local'))
 
+
+# ------------------------------------------------------------------------------ JUnit reporter
+from pyvc.pymodels import etree_model
+from contracts.common import nat_of_str
+
+M.trust('xml.etree.ElementTree.Element/SubElement store the tag, attributes, text and sub-elements they are given, '
+        'in order (pyvc/pymodels/etree_model.py)')
+
+
+def entry_unsuccessful(entry):
+    return not entry_successful(entry)
+
+
+def has_problem_child(e):
+    """the testcase element carries a failure or error element (and nothing else)"""
+    return len(e.children) == 1 and e.children[0].tag in ('failure', 'error')
+
+
+def case_element_ok(e, entry):
+    return e.tag == 'testcase' and has_problem_child(e) == (not entry_successful(entry))
+
+
+XML_LEAF = Inst(etree_model.Element, tag=Str, attrib=Any_, children=Any_, text=Any_, tail=Any_)
+XML_CASE = Inst(etree_model.Element, tag=Str, attrib=Any_, children=ListOf(XML_LEAF), text=Any_, tail=Any_)
+
+JUNIT_ROOT = Inst(junit.JUnitRootSuiteReporter,
+                  _root_suite=Any_, _std_output_files=Any_, _output_file=Any_, _error_file=Any_,
+                  _sub_reporters=ListOf(SUB_REPORTER), _start_time=Any_, _total_time_timedelta=Any_,
+                  _root_suite_dir_abs_path=Iface(PathI), _host_name=Str)
+
+# rendering of error messages is outside this property (C18: total on every failure shape)
+M.contract('exactly_lib.common.result_reporting:error_message_for_full_result', trusted=True,
+           params=dict(the_full_result=Any_), returns=Str)
+M.contract('exactly_lib.common.result_reporting:error_message_for_error_info', trusted=True,
+           params=dict(error_info=Any_), returns=Str)
+M.trust('common.result_reporting.error_message_for_full_result / error_message_for_error_info return a string '
+        '(rendering of error messages: C18)')
+
+M.contract(P_JUNIT + ':JUnitRootSuiteReporter._file_path_pres', params=dict(self=JUNIT_ROOT, file=Iface(PathI)),
+           returns=Str, ensures={'a string': lambda result: isinstance(result, str)}, raises_only=())
+
+
+def verdict_name(result):
+    if result.status is tcp.Status.EXECUTED:
+        return result.execution_result.status.name
+    if result.status is tcp.Status.ACCESS_ERROR:
+        return result.access_error_type.name
+    return 'INTERNAL_ERROR'
+
+
+M.contract(P_JUNIT + ':_error_type', params=dict(result=RESULT), inline=True,
+           ensures={'the verdict of the case': lambda result, ret: ret == verdict_name(result)}, raises_only=())
+
+M.contract(P_JUNIT + ':JUnitRootSuiteReporter._xml_for_case',
+           params=dict(self=JUNIT_ROOT, test_case_reference=CASE, processing_info=INFO), returns=XML_CASE,
+           ensures={
+               'a testcase element': lambda result: result.tag == 'testcase',
+               'carries a failure or error element iff the case is unsuccessful':
+                   lambda processing_info, result:
+                   has_problem_child(result) == (not successful(processing_info.result)),
+               'no other children': lambda result: len(result.children) <= 1,
+           }, raises_only=())
+
+
+def _mk_additional_attributes(interp, name):
+    return {'id': Str.make(interp, name + '.id'), 'package': Str.make(interp, name + '.package')}
+
+
+M.contract(P_JUNIT + ':JUnitRootSuiteReporter._xml_for_suite',
+           params=dict(self=JUNIT_ROOT, suite_reporter=SUB_REPORTER, name=Str,
+                       additional_attributes=Union(Const(None), Custom(_mk_additional_attributes))),
+           returns=Inst(etree_model.Element, tag=Str, attrib=Any_, children=Any_, text=Any_, tail=Any_),
+           ensures={
+               'tests = number of cases': lambda suite_reporter, result:
+               result.attrib['tests'] == str(len(suite_reporter._result)),
+               'failures + errors = number of unsuccessful cases': lambda suite_reporter, result:
+               nat_of_str(result.attrib['failures']) + nat_of_str(result.attrib['errors'])
+               == count_prefix(suite_reporter._result, len(suite_reporter._result), entry_unsuccessful),
+               'one testcase element per case, in order; failure/error child iff unsuccessful':
+                   lambda suite_reporter, result:
+                   len(result.children) == len(suite_reporter._result) + 3
+                   and forall_range(0, len(suite_reporter._result),
+                                    lambda j: case_element_ok(result.children[1 + j], suite_reporter._result[j])),
+           }, raises_only=())
+
+M.loop(P_JUNIT + ':JUnitRootSuiteReporter._xml_for_suite', 0,
+       invariant=lambda _i, suite_reporter, root, num_errors, num_failures:
+       num_errors >= 0 and num_failures >= 0
+       and num_failures + num_errors == count_prefix(suite_reporter._result, _i, entry_unsuccessful)
+       and len(root.children) == 1 + _i
+       and forall_range(0, _i, lambda j: case_element_ok(root.children[1 + j], suite_reporter._result[j])),
+       modifies={'num_errors': Int, 'num_failures': Int, 'sum_of_time_for_cases': Iface(DurationI),
+                 '@root': None, 'root.children': ListOf(XML_CASE),
+                 'test_case_setup': 'local', 'processing_info': 'local', 'result': 'local'})
 
 # ------------------------------------------------------------------------------ the status partition
 
